@@ -598,6 +598,162 @@ func bracedOK(s string, h int) bool {
 }
 func bracedVal(s string, h int) int { return hexAt(s, h+4, bracedN(s, h+4)) }
 
+// ---- the string value a literal denotes (ECMA-262 12.9.4 SV), executable only: used by the bounded clause of readString ----
+
+// jsUnits appends the UTF-16 code units of a code point.
+func jsUnits(u []int, cp int) []int {
+	if cp >= 0x10000 {
+		cp -= 0x10000
+		return append(u, 0xD800+(cp>>10), 0xDC00+(cp&0x3FF))
+	}
+	return append(u, cp)
+}
+
+// jsChar decodes the UTF-8 encoded character at s[i:] (RFC 3629; -1 for malformed input) and returns its length.
+func jsChar(s string, i int) (int, int) {
+	c := int(s[i])
+	need, min := 0, 0
+	switch {
+	case c < 0x80:
+		return c, 1
+	case c&0xE0 == 0xC0:
+		need, min, c = 1, 0x80, c&0x1F
+	case c&0xF0 == 0xE0:
+		need, min, c = 2, 0x800, c&0x0F
+	case c&0xF8 == 0xF0:
+		need, min, c = 3, 0x10000, c&0x07
+	default:
+		return -1, 1
+	}
+	if i+need >= len(s) {
+		return -1, 1
+	}
+	for k := 1; k <= need; k++ {
+		if s[i+k]&0xC0 != 0x80 {
+			return -1, 1
+		}
+		c = c<<6 | int(s[i+k]&0x3F)
+	}
+	if c < min || c > 0x10FFFF || (0xD800 <= c && c <= 0xDFFF) {
+		return -1, 1
+	}
+	return c, need + 1
+}
+
+// jsValue: the sequence of UTF-16 code units denoted by the body of a string literal delimited by delim, and whether the
+// body is a well-formed literal body at all (sloppy-mode grammar: legacy octal escapes included).
+func jsValue(body string, delim byte) ([]int, bool) {
+	u := []int{}
+	i := 0
+	for i < len(body) {
+		c := body[i]
+		if c == delim || c == '\n' || c == '\r' {
+			return nil, false
+		}
+		if c != '\\' {
+			cp, n := jsChar(body, i)
+			if cp < 0 {
+				return nil, false
+			}
+			u = jsUnits(u, cp)
+			i += n
+			continue
+		}
+		i++
+		if i >= len(body) {
+			return nil, false
+		}
+		e := body[i]
+		switch {
+		case e == 'n':
+			u, i = append(u, 10), i+1
+		case e == 't':
+			u, i = append(u, 9), i+1
+		case e == 'r':
+			u, i = append(u, 13), i+1
+		case e == 'b':
+			u, i = append(u, 8), i+1
+		case e == 'f':
+			u, i = append(u, 12), i+1
+		case e == 'v':
+			u, i = append(u, 11), i+1
+		case e == 'x':
+			if i+2 >= len(body) || !specHex(body[i+1]) || !specHex(body[i+2]) {
+				return nil, false
+			}
+			u, i = append(u, specHexVal(body[i+1])*16+specHexVal(body[i+2])), i+3
+		case e == 'u':
+			if i+1 < len(body) && body[i+1] == '{' {
+				j, v := i+2, 0
+				for j < len(body) && specHex(body[j]) {
+					v = v*16 + specHexVal(body[j])
+					if v > 0x10FFFF {
+						return nil, false
+					}
+					j++
+				}
+				if j == i+2 || j >= len(body) || body[j] != '}' {
+					return nil, false
+				}
+				u, i = jsUnits(u, v), j+1
+			} else {
+				if i+4 >= len(body) || !specHex(body[i+1]) || !specHex(body[i+2]) || !specHex(body[i+3]) || !specHex(body[i+4]) {
+					return nil, false
+				}
+				u, i = append(u, specHexVal(body[i+1])*4096+specHexVal(body[i+2])*256+specHexVal(body[i+3])*16+specHexVal(body[i+4])), i+5
+			}
+		case '0' <= e && e <= '7':
+			// \0 not followed by a digit is NUL; otherwise a legacy octal escape: up to three digits, value at most 255
+			v, j := int(e-'0'), i+1
+			max := 2
+			if e <= '3' {
+				max = 3
+			}
+			for j < len(body) && j-i < max && '0' <= body[j] && body[j] <= '7' {
+				v = v*8 + int(body[j]-'0')
+				j++
+			}
+			u, i = append(u, v), j
+		case e == '\n':
+			i++ // line continuation
+		case e == '\r':
+			i++
+			if i < len(body) && body[i] == '\n' {
+				i++
+			}
+		default:
+			cp, n := jsChar(body, i)
+			if cp < 0 {
+				return nil, false
+			}
+			if cp != 0x2028 && cp != 0x2029 { // these two continue the line
+				u = jsUnits(u, cp)
+			}
+			i += n
+		}
+	}
+	return u, true
+}
+
+// sameValue: a well-formed source body (delimiter d) and the scanner's result (body of a double-quoted literal) denote the
+// same string.
+func sameValue(src string, d byte, out string) bool {
+	a, ok := jsValue(src, d)
+	if !ok {
+		return true // not a literal of the subset: nothing is claimed
+	}
+	b, ok2 := jsValue(out, '"')
+	if !ok2 || len(a) != len(b) {
+		return false
+	}
+	for k := range a {
+		if a[k] != b[k] {
+			return false
+		}
+	}
+	return true
+}
+
 // C07: what one iteration of the scanner writes for each kind of string element (c1, c2, ... are the bytes after the
 // cursor at the head of the iteration): ordinary bytes verbatim (a double quote gets a backslash: the printer re-quotes
 // with double quotes), unknown escapes verbatim, \xHH / \uHHHH decoded only when the value can be written raw.
@@ -638,6 +794,7 @@ func bracedVal(s string, h int) int { return hexAt(s, h+4, bracedN(s, h+4)) }
 //@   ensures [cursor] lexInv(l)
 //@   ensures [progress] l.position > old(l.position)
 //@   ensures [closed@C07] l.position >= len(l.input) || l.input[l.position] == delimiter
+//@   ensures-bounded [value@C07] implies((delimiter == '"' || delimiter == '\'') && old(l.CurrentChar) == delimiter && l.position < len(l.input), sameValue(l.input[old(l.position)+1:l.position], delimiter, result))
 
 //@ func (l *Lexer) readLeadingComments()
 //@   props C10 C11 C15 C02 C13
